@@ -7,6 +7,7 @@ class C47(core.Prop):
     drivers = [tracegen.DRIVER, "mpi_interp"]
     sizes = {"quick": 600, "thorough": 30000}
     max_workers = 6
+    ready = True
     technique = ("property-based testing (Hypothesis): generated S4U programs run with generated tracing options; the Paje file is "
                  "judged by an independent validator (validity predicate)")
     rule = ("Class 1 (2/3 of the cases): generated S4U programs (vf/syncgen: 1-4 actors x <= 8 operations over mutexes, mailboxes, execs, "
